@@ -111,6 +111,7 @@ func structView(spec *common.Spec, v any) (root [32]byte, has bool, err error) {
 type rootsInfo struct {
 	viewChecked, structViewChecked bool
 	derived                        int
+	rehashed                       bool
 	atLimit, nonEmpty              int
 	nonDef, fixed                  bool
 }
@@ -199,6 +200,32 @@ func runRoots(c *Case) (*report.Failure, *rootsInfo) {
 			return report.Failf(c.Type+"/HashTreeRoot/struct.View()-differs-from-spec", "%s root of struct.View() %x, struct root %x, SSZ merkleization gives %x; value %s", tag, sroot, got, want, short(B)), info
 		}
 		info.structViewChecked = true
+	}
+	// the same OBJECT hashed again after it was overwritten with another value (fixed-size types: their decoders
+	// document re-use of the destination): a root remembered on the object, or anywhere keyed by it, would be stale
+	if t.IsFixed() {
+		donor := refssz.Serialize(t, refssz.Perturb(t, V))
+		o2 := reg.Obj{Spec: p.Spec, V: mk()}
+		var r1, r2 [32]byte
+		if err, _ := guard("re-hash", func() error {
+			if e := o2.Deserialize(donor); e != nil {
+				return e
+			}
+			r1, _ = o2.HashTreeRoot()
+			if e := o2.Deserialize(B); e != nil {
+				return e
+			}
+			r2, _ = o2.HashTreeRoot()
+			return nil
+		}); err == nil {
+			if r2 != want {
+				return report.Failf(c.Type+"/HashTreeRoot/stale-after-overwrite", "%s an object that held (and was hashed as) another value, then decoded B: root %x, want %x (root of the previous value %x); value %s", tag, r2, want, r1, short(B)), info
+			}
+			if dv, derr := refssz.Deserialize(t, donor); derr == nil && r1 != refssz.HashTreeRoot(t, dv) {
+				return report.Failf(c.Type+"/HashTreeRoot/struct-differs-from-spec", "%s (perturbed value) struct root %x differs from the SSZ root; value %s", tag, r1, short(donor)), info
+			}
+			info.rehashed = true
+		}
 	}
 	// summary forms derived by the library (headers, shallow bodies) keep the root
 	if f, n := derivedForms(p.Spec, c.Type, tag, o.V, want, B); f != nil {
@@ -358,6 +385,9 @@ func TestCheck(t *testing.T) {
 		if info.structViewChecked {
 			r.Hit("roots:struct.View()")
 			r.Class("roots:struct.View()")
+		}
+		if info.rehashed {
+			r.Class("roots:same-object-rehashed-after-overwrite")
 		}
 		if info.derived > 0 {
 			r.Hit("roots:derived-forms(header,shallow-body)")
